@@ -19,16 +19,24 @@ OBLIGATIONS = [
     "NanoVerif.C18.designspace_normalises",
     "NanoVerif.Var.support1_excludes",
     "NanoVerif.Var.supportsGo_single",
+    "NanoVerif.Var.supportOf_excludes",
+    "NanoVerif.Var.scalarTable_triangular",
+    "NanoVerif.Var.sortLocs_good",
+    "NanoVerif.C18.masters_reproduced",
+    "NanoVerif.C18.masters_reproduced_rounded_model",
+    "NanoVerif.C18.masters_reproduced_any_order",
 ]
 DESIGN_REF = "DESIGN.md §5 C18"
 LEVEL_TEXT = ("Partial proof + exploration. Proved in Lean: (1) what is nanoemoji's own logic — each axis range is the hull of the masters' positions, attained at "
               "masters, and that triple normalises the default to 0 and the ends to -1 / +1; (2) on a transcription of fontTools' varLib.models (normalizeValue, "
               "supportScalar, VariationModel supports / deltas / interpolation; Model/VarModel.lean): forward substitution over a unit lower-triangular scalar table "
               "gives every master back at its own location for any number of masters and axes (and within the rounding of ONE delta when deltas are rounded to "
-              "integers); for one axis the whole chain is closed — the support construction pushes every earlier master onto or outside the boundary of every later "
-              "support (induction over the masters), so `valueAt` at master i's position is master i's value and the origin gives the default master, for any number "
-              "of masters at distinct positions; (3) clip-box convexity between adjacent masters. NOT proved: triangularity of the supports for several axes (tied "
-              "and observed only), ufo2ft's merging of UFOs into gvar/HVAR/COLR variation data. Tie: the model against the real VariationModel run on Fractions "
+              "integers); the chain is closed for ANY number of axes and masters — the order the model sorts the masters into never decreases the number of axes moved "
+              "on (sortLocs_good), the box-splitting of _computeMasterSupports pushes every earlier master onto or outside the boundary of every later support on "
+              "an axis of best ratio and later steps only shrink boxes (supportOf_excludes, scalarTable_triangular), so `valueAt` at master i's location is master "
+              "i's value whatever order the masters are declared in (masters_reproduced_any_order) and the origin gives the default master; a one-axis version is "
+              "proved separately through a simpler construction shown equal to the general one; (3) clip-box convexity between adjacent masters. NOT proved: "
+              "ufo2ft's merging of UFOs into gvar/HVAR/COLR variation data (which quantities it feeds to the model), F2Dot14 rounding of the region coordinates. Tie: the model against the real VariationModel run on Fractions "
               "(master order, supports, deltas, values), against the regions stored in every variable font built (COLR VarStore, gvar), and its prediction of the "
               "clip boxes at an intermediate location from the static builds of the masters. Explored on the REAL CLI: generated 1-2 axis configurations with 2-3 "
               "structurally compatible masters; the variable font is instantiated at every master location and compared with a static build of that master alone "
